@@ -1463,6 +1463,25 @@ func (fr *Frame) sortSlice(st *State, g string, x ssa.Value, mc *ssa.MakeClosure
 		env.names[fn.FreeVars[0].Name()] = TV{term: xs, typ: x.Type()}
 		return env.evalBool(lessE)
 	}
+	// the closure's contract must bind here (a renamed captured variable etc. makes it unusable)
+	usable := true
+	func() {
+		defer func() {
+			if r := recover(); r != nil {
+				switch r.(type) {
+				case evalErr, bindErr, unsupported:
+					usable = false
+				default:
+					panic(r)
+				}
+			}
+		}()
+		less("0", "0")
+	}()
+	if !usable {
+		vc.note("sort.Slice in %s: the contract of the less closure does not bind to the code, sortedness of the result is not assumed", fr.fn.String())
+		return st, nil
+	}
 	inr := func(v string) string { return fmt.Sprintf("(and (<= 0 %s) (< %s %s))", v, v, ln) }
 	mk := func(name, goal, src string) {
 		vc.addObl(&Obligation{Name: fmt.Sprintf("%s#pre@sort.Slice.%s", vc.unit, name), Kind: "pre", Props: fr.top().props(), Guard: g, Goal: goal, Src: src, Pos: vc.eng.pos(pos)})
